@@ -39,39 +39,46 @@ Theorem compute_entropy_refines hash n chash :
   length hash = 32%nat -> length chash = 32%nat ->
   compute_entropy hash n chash = Some (spec_entropy hash n chash).
 Proof.
-  intros Hh Hc. unfold compute_entropy. rewrite Hh. cbn [Nat.eqb negb].
+  intros Hh Hc. unfold compute_entropy. rewrite Hh, Hc. cbn [Nat.eqb negb].
   rewrite midstate256_block.
-  - reflexivity.
+  - unfold spec_entropy, entropy_of, fast_merkle_root2, ser_outpoint, dsha256. reflexivity.
   - rewrite app_length, Hc. unfold dsha256. rewrite iss_sha256_length. reflexivity.
 Qed.
 
 Theorem compute_asset_refines e : length e = 32%nat -> compute_asset e = Some (spec_asset e).
 Proof.
   intro H. unfold compute_asset. rewrite H. cbn [Nat.eqb negb].
-  rewrite midstate256_block by (rewrite app_length, H, repeat_length; reflexivity). reflexivity.
+  rewrite midstate256_block by (rewrite app_length, H, repeat_length; reflexivity).
+  unfold spec_asset, asset_of, fast_merkle_root2. reflexivity.
 Qed.
 
 Theorem compute_token_refines e (confidential : bool) :
-  length e = 32%nat -> compute_token e (flag_of confidential) = Some (spec_token e confidential).
+  length e = 32%nat -> compute_token e (iss_flag_of confidential) = Some (spec_token e confidential).
 Proof.
   intro H. unfold compute_token. rewrite H. cbn [Nat.eqb negb].
-  destruct confidential; cbn [flag_of N.eqb orb negb];
-    (rewrite midstate256_block by (rewrite app_length, H; reflexivity)); reflexivity.
+  destruct confidential; cbn [iss_flag_of N.eqb orb negb];
+    (rewrite midstate256_block by (rewrite app_length, H; reflexivity));
+    unfold spec_token, token_of, fast_merkle_root2; reflexivity.
 Qed.
 
 Theorem ids_refine_spec hash n chash e confidential :
   length hash = 32%nat -> length chash = 32%nat -> length e = 32%nat ->
   compute_entropy hash n chash = Some (spec_entropy hash n chash) /\
   compute_asset e = Some (spec_asset e) /\
-  compute_token e (flag_of confidential) = Some (spec_token e confidential).
+  compute_token e (iss_flag_of confidential) = Some (spec_token e confidential).
 Proof.
   intros. repeat split; [apply compute_entropy_refines | apply compute_asset_refines | apply compute_token_refines]; assumption.
 Qed.
 
 (* the guards: exactly which inputs are refused *)
-Lemma compute_entropy_error_iff hash n chash : compute_entropy hash n chash = None <-> length hash <> 32%nat.
+Lemma compute_entropy_error_iff hash n chash :
+  compute_entropy hash n chash = None <-> length hash <> 32%nat \/ length chash <> 32%nat.
 Proof.
-  unfold compute_entropy. destruct (Nat.eqb_spec (length hash) 32) as [E|E]; cbn [negb]; split; intro H; congruence.
+  unfold compute_entropy.
+  destruct (Nat.eqb_spec (length hash) 32) as [E|E]; cbn [negb].
+  - destruct (Nat.eqb_spec (length chash) 32) as [F|F]; cbn [negb]; split; intro H;
+      try discriminate H; try reflexivity; [destruct H; contradiction | right; exact F].
+  - split; [intros _; left; exact E | reflexivity].
 Qed.
 Lemma compute_asset_error_iff e : compute_asset e = None <-> length e <> 32%nat.
 Proof.
@@ -96,19 +103,18 @@ Proof.
     inversion H; apply midstate256_length.
 Qed.
 
-(* FULL STATEMENT for contract hashes of any length (false of the code):
-     forall hash n chash, length hash = 32 -> compute_entropy hash n chash is either an error or an
-     injective-looking function of the outpoint.
-   With a contract hash shorter than 32 bytes the mid-state helper sees fewer than 64 bytes and
-   returns the SHA-256 initial state: every outpoint gets the same entropy. *)
+(* a contract hash that is not a uint256 is refused (before the repair 09b8e78 a short one made
+   the mid-state helper return the SHA-256 initial state for every outpoint) *)
 Definition h32 (k : N) : bytes := repeat (b8 k) 32.
-Theorem compute_entropy_short_contract_hash_refuted :
-  exists h h' n chash, h <> h' /\ length h = 32%nat /\ length h' = 32%nat /\ (length chash < 32)%nat /\
-    compute_entropy h n chash = compute_entropy h' n chash /\ compute_entropy h n chash = Some (digest_of IV256).
+Theorem compute_entropy_rejects_bad_contract_hash hash n chash :
+  length chash <> 32%nat -> compute_entropy hash n chash = None.
+Proof. intro H. apply compute_entropy_error_iff. right. exact H. Qed.
+Theorem compute_entropy_total hash n chash :
+  length hash = 32%nat -> length chash = 32%nat ->
+  exists e, compute_entropy hash n chash = Some e /\ length e = 32%nat /\ e = spec_entropy hash n chash.
 Proof.
-  exists (h32 1), (h32 2), 0, (repeat x00 31).
-  split; [intro E; apply (f_equal (fun l => hd x00 l)) in E; discriminate E|].
-  repeat split; vm_compute; try reflexivity; lia.
+  intros Hh Hc. rewrite compute_entropy_refines by assumption. eexists. split; [reflexivity|]. split; [|reflexivity].
+  apply sha256_midstate_length.
 Qed.
 
 (* ---------- the recorded vectors of transaction/data/issuance.json ---------- *)
@@ -119,8 +125,8 @@ Example issuance_json_vector_1 :
   compute_token (map b8 [61;185;216;180;169;218;8;123;66;242;159;52;67;20;18;170;162;77;99;117;11;179;27;154;46;38;55;151;36;129;53;224]) 0 = Some (map b8 [77;129;248;8;116;143;141;255;189;178;127;229;159;252;42;106;194;37;81;101;24;3;109;29;207;152;181;96;219;116;16;250]).
 Proof. repeat split; vm_compute; reflexivity. Qed.
 
-Definition vec2_contract : contract :=
-  mk_contract (map b8 [84;101;115;116]) (map b8 [84;83;84]) 0 0 (map b8 [48;50;97;57;97;55;51;57;57;100;101;56;57;101;99;50;101;55;100;101;56;55;54;98;98;101;48;98;53;49;50;102;55;56;102;49;51;100;53;100;48;97;51;51;49;53;48;52;55;101;53;98;49;52;49;48;57;99;56;98;97;99;51;56;102;50]) (map b8 [116;101;115;116;46;105;111]).
+Definition vec2_contract : iss_contract :=
+  mk_iss_contract (map b8 [84;101;115;116]) (map b8 [84;83;84]) 0 0 (map b8 [48;50;97;57;97;55;51;57;57;100;101;56;57;101;99;50;101;55;100;101;56;55;54;98;98;101;48;98;53;49;50;102;55;56;102;49;51;100;53;100;48;97;51;51;49;53;48;52;55;101;53;98;49;52;49;48;57;99;56;98;97;99;51;56;102;50]) (map b8 [116;101;115;116;46;105;111]).
 Definition vec2_hash : bytes := map b8 [58;53;45;33;74;44;183;156;202;102;83;246;199;32;0;159;209;82;148;90;243;182;41;130;102;193;219;154;210;19;39;143].
 Example issuance_json_vector_2 :
   compute_entropy vec2_hash 1 (contract_hash vec2_contract) = Some (map b8 [228;5;182;164;248;145;183;34;108;195;217;7;92;26;156;100;171;115;187;95;104;228;88;219;233;83;64;81;140;69;91;247]) /\
@@ -129,8 +135,544 @@ Example issuance_json_vector_2 :
 Proof. repeat split; vm_compute; reflexivity. Qed.
 
 (* TestIsContractHashValid *)
-Definition tiero_contract : contract :=
-  mk_contract (map b8 [84;105;101;114;111;32;84;111;107;101;110]) (map b8 [84;73;69;82;79]) 0 8 (map b8 [48;50;97;57;97;55;51;57;57;100;101;56;57;101;99;50;101;55;100;101;56;55;54;98;98;101;48;98;53;49;50;102;55;56;102;49;51;100;53;100;48;97;51;51;49;53;48;52;55;101;53;98;49;52;49;48;57;99;56;98;97;99;51;56;102;50]) (map b8 [116;105;101;114;111;46;103;105;116;104;117;98;46;105;111]).
+Definition tiero_contract : iss_contract :=
+  mk_iss_contract (map b8 [84;105;101;114;111;32;84;111;107;101;110]) (map b8 [84;73;69;82;79]) 0 8 (map b8 [48;50;97;57;97;55;51;57;57;100;101;56;57;101;99;50;101;55;100;101;56;55;54;98;98;101;48;98;53;49;50;102;55;56;102;49;51;100;53;100;48;97;51;51;49;53;48;52;55;101;53;98;49;52;49;48;57;99;56;98;97;99;51;56;102;50]) (map b8 [116;105;101;114;111;46;103;105;116;104;117;98;46;105;111]).
 Example contract_hash_vector :
   contract_hash tiero_contract = map b8 [102;56;71;242;234;88;60;0;112;77;217;38;77;62;33;214;131;219;76;192;204;240;194;25;67;42;207;233;62;54;196;213].
+Proof. vm_compute. reflexivity. Qed.
+
+(* ---------- iss_contract JSON ---------- *)
+Definition iss_comma : byte := b8 44.
+Definition iss_colon : byte := b8 58.
+(* the key-sorted form, whatever the strings and numbers are *)
+Theorem contract_json_closed_form c :
+  contract_json c =
+  b8 123 :: ((jstr k_entity ++ iss_colon :: (b8 123 :: (jstr k_domain ++ iss_colon :: jstr (c_domain c)) ++ [b8 125])) ++ iss_comma ::
+             (jstr k_pubkey ++ iss_colon :: jstr (c_pubkey c)) ++ iss_comma ::
+             (jstr k_name ++ iss_colon :: jstr (c_name c)) ++ iss_comma ::
+             (jstr k_precision ++ iss_colon :: dec_of_N (c_precision c)) ++ iss_comma ::
+             (jstr k_ticker ++ iss_colon :: jstr (c_ticker c)) ++ iss_comma ::
+             (jstr k_version ++ iss_colon :: dec_of_N (c_version c))) ++ [b8 125].
+Proof. destruct c. reflexivity. Qed.
+
+(* the keys of the closed form are those of the specification, in that order *)
+Lemma contract_keys_are_spec_keys :
+  [k_entity; k_pubkey; k_name; k_precision; k_ticker; k_version] = map (map b8) spec_contract_keys.
+Proof. reflexivity. Qed.
+Lemma spec_contract_keys_sorted :
+  forall i j a b, nth_error (map (map b8) spec_contract_keys) i = Some a ->
+                  nth_error (map (map b8) spec_contract_keys) j = Some b -> (i < j)%nat -> bytes_ltb a b = true.
+Proof.
+  intros i j a b Hi Hj Hlt.
+  do 6 (destruct i as [|i]; [do 6 (destruct j as [|j]; [try lia; cbn in Hi, Hj; inversion Hi; inversion Hj; subst; reflexivity|]);
+        destruct j; discriminate Hj|]).
+  destruct i; discriminate Hi.
+Qed.
+
+(* the order in which the fields are listed does not matter (every rotation and the reversal of
+   the struct order; the general permutation statement is not proved) *)
+Definition iss_rotate {A} (k : nat) (l : list A) : list A := skipn k l ++ firstn k l.
+Theorem contract_json_key_order_partial c k :
+  ser_json 3 (JObj (iss_rotate k (contract_fields c))) = contract_json c /\
+  ser_json 3 (JObj (rev (contract_fields c))) = contract_json c.
+Proof.
+  destruct c. split; [|reflexivity].
+  do 7 (destruct k as [|k]; [reflexivity|]). unfold iss_rotate, contract_fields.
+  cbn [skipn firstn app]. reflexivity.
+Qed.
+
+(* ---------- asset id and token ids are pairwise distinct under an ideal compression function ---------- *)
+Section Distinct.
+  Variable cmp : bytes -> bytes.
+  Hypothesis cmp_inj : forall a b, length a = 64%nat -> length b = 64%nat -> cmp a = cmp b -> a = b.
+
+  Lemma block_len (e tag : bytes) : length e = 32%nat -> length tag = 32%nat -> length (e ++ tag) = 64%nat.
+  Proof. intros H1 H2. rewrite app_length, H1, H2. reflexivity. Qed.
+
+  Theorem ids_pairwise_distinct (e : bytes) : length e = 32%nat ->
+    asset_of cmp e <> token_of cmp e false /\
+    asset_of cmp e <> token_of cmp e true /\
+    token_of cmp e false <> token_of cmp e true.
+  Proof.
+    intro He. unfold asset_of, token_of, fast_merkle_root2.
+    repeat split; intro E; apply cmp_inj in E; try (apply block_len; [exact He | reflexivity]);
+      apply app_inv_head in E; discriminate E.
+  Qed.
+
+  (* the token id is the confidential one exactly when the flag says so *)
+  Theorem token_id_flag_iff (e : bytes) (c : bool) : length e = 32%nat -> (token_of cmp e c = token_of cmp e true <-> c = true).
+  Proof.
+    intro He. split; [|intros ->; reflexivity]. destruct c; [reflexivity|].
+    intro E. exfalso. exact (proj2 (proj2 (ids_pairwise_distinct e He)) E).
+  Qed.
+
+  (* different entropies never share an id, different outpoints / iss_contract hashes never share an entropy *)
+  Lemma app_inv_len {A} (a a' b b' : list A) : length a = length a' -> a ++ b = a' ++ b' -> a = a' /\ b = b'.
+  Proof.
+    revert a'. induction a as [|x a IH]; intros [|y a'] L E; try discriminate L.
+    - split; [reflexivity | exact E].
+    - cbn in E. inversion E; subst. injection L as L. destruct (IH a' L H1) as [-> ->]. split; reflexivity.
+  Qed.
+
+  Theorem ids_injective_in_entropy (e e' : bytes) (c c' : bool) : length e = 32%nat -> length e' = 32%nat ->
+    (asset_of cmp e = asset_of cmp e' -> e = e') /\
+    (token_of cmp e c = token_of cmp e' c' -> e = e' /\ c = c') /\
+    asset_of cmp e <> token_of cmp e' c.
+  Proof.
+    intros He He'. unfold asset_of, token_of, fast_merkle_root2. repeat split.
+    - intro E. apply cmp_inj in E; try (apply block_len; [assumption | reflexivity]).
+      apply app_inv_len in E; [tauto | congruence].
+    - apply cmp_inj in H; try (apply block_len; [assumption | destruct c, c'; reflexivity]).
+      apply app_inv_len in H; [tauto | congruence].
+    - apply cmp_inj in H; try (apply block_len; [assumption | destruct c, c'; reflexivity]).
+      apply app_inv_len in H; [|congruence]. destruct H as [_ H]. destruct c, c'; congruence.
+    - intro E. apply cmp_inj in E; try (apply block_len; [assumption | destruct c; reflexivity]).
+      apply app_inv_len in E; [|congruence]. destruct E as [_ E]. destruct c; discriminate E.
+  Qed.
+
+  Theorem entropy_injective (H : bytes -> bytes) (h : bytes) (n : N) (ch h' : bytes) (n' : N) (ch' : bytes) :
+    (forall x, length (H x) = 32%nat) -> (forall x y, H x = H y -> x = y) ->
+    length h = 32%nat -> length h' = 32%nat -> n < 2 ^ 32 -> n' < 2 ^ 32 -> length ch = 32%nat -> length ch' = 32%nat ->
+    entropy_of cmp H h n ch = entropy_of cmp H h' n' ch' -> h = h' /\ n = n' /\ ch = ch'.
+  Proof.
+    intros HL HI Lh Lh' Ln Ln' Lc Lc' E. unfold entropy_of, fast_merkle_root2, ser_outpoint in E.
+    apply cmp_inj in E; try (apply block_len; [apply HL | assumption]).
+    apply app_inv_len in E; [|rewrite !HL; reflexivity]. destruct E as [E ->].
+    apply HI, HI in E. apply app_inv_len in E; [|congruence]. destruct E as [-> E].
+    repeat split. apply (le_enc_inj 4); assumption.
+  Qed.
+End Distinct.
+
+(* the hypotheses are satisfiable: the identity is an injective "compression" *)
+Example distinct_hypotheses_satisfiable :
+  let cmp := fun b : bytes => b in
+  (forall a b, length a = 64%nat -> length b = 64%nat -> cmp a = cmp b -> a = b) /\
+  asset_of cmp zero32b <> token_of cmp zero32b true.
+Proof.
+  split; [intros a b _ _ E; exact E|].
+  apply (ids_pairwise_distinct (fun b => b)); [intros a b _ _ E; exact E | reflexivity].
+Qed.
+
+(* ====================================================================== *)
+(* updaters                                                               *)
+(* ====================================================================== *)
+Definition chash_of (c : option iss_contract) : bytes :=
+  match c with Some ct => contract_hash ct | None => zero32b end.
+
+Lemma nth_error_iss_set_nth {A} (f : A -> A) (l : list A) : forall k,
+  nth_error (iss_set_nth k f l) k = option_map f (nth_error l k).
+Proof.
+  induction l as [|x l IH]; intros [|k]; cbn [iss_set_nth nth_error option_map]; try reflexivity. apply IH.
+Qed.
+Lemma nth_error_iss_set_nth_other {A} (f : A -> A) (l : list A) : forall k j, k <> j ->
+  nth_error (iss_set_nth k f l) j = nth_error l j.
+Proof.
+  induction l as [|x l IH]; intros [|k] [|j] NE; cbn [iss_set_nth nth_error]; try reflexivity; try congruence.
+  apply IH. congruence.
+Qed.
+Lemma iss_set_nth_length {A} (f : A -> A) (l : list A) : forall k, length (iss_set_nth k f l) = length l.
+Proof. induction l as [|x l IH]; intros [|k]; cbn [iss_set_nth length]; try reflexivity. rewrite IH. reflexivity. Qed.
+
+Lemma new_tx_issuance_inv asset token prec c ie :
+  new_tx_issuance asset token prec c = Some ie ->
+  ie = mk_iss_ext (mk_iss zero32b [] (issuance_amount asset) (issuance_amount token)) prec (chash_of c) /\ prec <= 8 /\
+  match c with Some ct => c_precision ct = prec | None => True end.
+Proof.
+  unfold new_tx_issuance. destruct (N.ltb_spec 8 prec) as [L|L]; [discriminate|].
+  destruct c as [ct|].
+  - destruct (N.eqb_spec (c_precision ct) prec) as [E|E]; cbn [negb]; [|discriminate].
+    intro H; inversion H; subst. repeat split; try lia; try reflexivity.
+  - intro H; inversion H; subst. repeat split; try lia; try reflexivity.
+Qed.
+
+Lemma generate_entropy_inv ie h n ie' :
+  generate_entropy ie h n = Some ie' ->
+  exists e, compute_entropy h n (ie_chash ie) = Some e /\ length e = 32%nat /\
+    ie' = mk_iss_ext (mk_iss (iss_nonce (ie_iss ie)) e (iss_amount (ie_iss ie)) (iss_token (ie_iss ie))) (ie_precision ie) (ie_chash ie).
+Proof.
+  unfold generate_entropy. destruct (compute_entropy h n (ie_chash ie)) as [e|] eqn:E; [|discriminate].
+  intro H; inversion H; subst. exists e. repeat split.
+  apply (ids_are_32_bytes h n (ie_chash ie) [] 0 e). left; exact E.
+Qed.
+
+Lemma compute_asset_some e : length e = 32%nat -> exists a, compute_asset e = Some a /\ length a = 32%nat.
+Proof.
+  intro H. rewrite compute_asset_refines by exact H. eexists; split; [reflexivity|].
+  apply sha256_midstate_length.
+Qed.
+Lemma compute_token_some e b : length e = 32%nat -> exists t, compute_token e (iss_flag_of b) = Some t /\ length t = 32%nat.
+Proof.
+  intro H. rewrite compute_token_refines by exact H. eexists; split; [reflexivity|].
+  apply sha256_midstate_length.
+Qed.
+
+Lemma v2_add_output_inv p o p' : v2_add_output p o = Some p' ->
+  p' = mk_v2pkt (v2_incount p) (v2_outcount p + 1) (v2_outs_modifiable p) (v2_ins p) (v2_outs p ++ [o]) /\
+  v2_outs_modifiable p = true.
+Proof.
+  unfold v2_add_output. destruct (length (vo_asset o) =? 0)%nat; [discriminate|].
+  destruct (v2_outs_modifiable p); cbn [negb]; [|discriminate]. intro H; inversion H. split; reflexivity.
+Qed.
+
+Lemma v2_index_ok_inv p idx input : v2_index_ok p idx = Some input ->
+  (0 <= idx)%Z /\ (idx <= Z.of_N (v2_incount p) - 1)%Z /\ nth_error (v2_ins p) (Z.to_nat idx) = Some input /\
+  vi_entropy input = None.
+Proof.
+  unfold v2_index_ok.
+  destruct (Z.ltb_spec idx 0) as [L|L]; cbn [orb]; [discriminate|].
+  destruct (Z.ltb_spec (Z.of_N (v2_incount p) - 1) idx) as [G|G]; [discriminate|].
+  destruct (nth_error (v2_ins p) (Z.to_nat idx)) as [i|] eqn:N; [|discriminate].
+  destruct (vi_entropy i) eqn:E; cbn [iss_is_some]; [discriminate|].
+  intro H; inversion H; subst. repeat split; assumption.
+Qed.
+
+(* what a successful AddInIssuance leaves behind *)
+Definition v2_issued_input (input : v2in) (a : iss_args) : v2in :=
+  mk_v2in (vi_txid input) (vi_index input) (vi_seq input) (ia_asset a) (vi_vcommit input) (ia_token a)
+          (vi_kcommit input) (Some zero32b) (Some (chash_of (ia_contract a))) (Some (ia_blinded a)).
+
+Theorem v2_issuance_outputs_pay_derived_ids p idx a p' :
+  v2_add_in_issuance p idx a = (true, p') ->
+  exists input entropy asset token,
+    let k := Z.to_nat idx in
+    let bidx := Z.to_N idx mod 4294967296 in
+    (0 <= idx)%Z /\ nth_error (v2_ins p) k = Some input /\ vi_entropy input = None /\
+    (* the ids are derived from that input's outpoint and the iss_contract hash *)
+    compute_entropy (vi_txid input) (vi_index input) (chash_of (ia_contract a)) = Some entropy /\
+    compute_asset entropy = Some asset /\
+    compute_token entropy (iss_flag_of (ia_blinded a)) = Some token /\
+    (* the outputs added pay exactly those ids *)
+    v2_outs p' = v2_outs p ++
+                 v2_new_output asset (ia_asset a) (ia_aaddr a) bidx bidx ::
+                 (if 0 <? ia_token a then [v2_new_output token (ia_token a) (ia_taddr a) bidx bidx] else []) /\
+    (* the input records the issuance; every other input is untouched *)
+    v2_ins p' = iss_set_nth k (fun _ => v2_issued_input input a) (v2_ins p) /\
+    nth_error (v2_ins p') k = Some (v2_issued_input input a) /\
+    ia_precision a <= 8.
+Proof.
+  unfold v2_add_in_issuance. intro H.
+  destruct (v2_validate a) eqn:V; cbn [negb] in H; [|discriminate H].
+  destruct (v2_ins p) as [|i0 rest] eqn:Ins; [discriminate H|]. rewrite <- Ins in *. clear Ins i0 rest.
+  destruct (v2_index_ok p idx) as [input|] eqn:IX; [|discriminate H].
+  destruct (new_tx_issuance (ia_asset a) (ia_token a) (ia_precision a) (ia_contract a)) as [iss0|] eqn:NI; [|discriminate H].
+  destruct (generate_entropy iss0 (vi_txid input) (vi_index input)) as [iss|] eqn:GE; [|discriminate H].
+  apply v2_index_ok_inv in IX as (Hpos & _ & Hnth & Hent).
+  apply new_tx_issuance_inv in NI as (-> & Hprec & _).
+  apply generate_entropy_inv in GE as (entropy & CE & Le & ->).
+  cbn [ie_iss ie_chash ie_precision iss_nonce iss_amount iss_token iss_entropy] in *.
+  destruct (compute_asset_some entropy Le) as (asset & CA & _).
+  destruct (compute_token_some entropy (ia_blinded a) Le) as (token & CT & _).
+  unfold generate_asset, generate_token in H. cbn [ie_iss iss_entropy] in H. rewrite CA, CT in H.
+  cbv zeta in H.
+  match type of H with context [v2_set_in p ?k ?f] => set (p1 := v2_set_in p k f) in * end.
+  assert (Hins1 : v2_ins p1 = iss_set_nth (Z.to_nat idx) (fun _ => v2_issued_input input a) (v2_ins p)).
+  { unfold p1, v2_set_in. cbn [v2_ins].
+    clear - Hnth. revert Hnth. generalize (Z.to_nat idx) as k. generalize (v2_ins p) as l.
+    induction l as [|x l IH]; intros [|k] Hn; cbn [iss_set_nth nth_error] in *; try reflexivity; try discriminate.
+    - inversion Hn; subst. reflexivity.
+    - rewrite (IH k Hn). reflexivity. }
+  assert (Houts1 : v2_outs p1 = v2_outs p) by reflexivity.
+  clearbody p1.
+  exists input, entropy, asset, token. cbv zeta.
+  destruct (v2_add_output p1 _) as [p2|] eqn:A1; [|discriminate H].
+  apply v2_add_output_inv in A1 as (-> & M1).
+  assert (Hnth' : nth_error (iss_set_nth (Z.to_nat idx) (fun _ => v2_issued_input input a) (v2_ins p)) (Z.to_nat idx)
+                  = Some (v2_issued_input input a)).
+  { rewrite nth_error_iss_set_nth, Hnth. reflexivity. }
+  destruct (0 <? ia_token a) eqn:TK.
+  - destruct (v2_add_output _ _) as [p3|] eqn:A2 in H; [|discriminate H].
+    apply v2_add_output_inv in A2 as (-> & _). inversion H; subst p'. cbn [v2_outs v2_ins].
+    rewrite Hins1, Houts1. repeat split; try assumption.
+    rewrite <- app_assoc. reflexivity.
+  - inversion H; subst p'. cbn [v2_outs v2_ins].
+    rewrite Hins1, Houts1. repeat split; try assumption.
+Qed.
+
+(* the derived-id getters of the updated input return the ids the outputs pay *)
+Theorem v2_getters_agree_with_outputs input a entropy asset token :
+  compute_entropy (vi_txid input) (vi_index input) (chash_of (ia_contract a)) = Some entropy ->
+  compute_asset entropy = Some asset ->
+  compute_token entropy (iss_flag_of (ia_blinded a)) = Some token ->
+  (0 < ia_asset a \/ 0 < ia_token a) ->
+  get_issuance_asset_hash (v2_issued_input input a) = Some asset /\
+  get_issuance_keys_hash (v2_issued_input input a) = Some token.
+Proof.
+  intros CE CA CT NZ.
+  unfold get_issuance_asset_hash, get_issuance_keys_hash, vi_has_issuance, vi_issuance, vi_has_reissuance, vi_is_blinded.
+  unfold v2_issued_input. cbn [vi_value vi_keys vi_nonce vi_entropy vi_blinded vi_txid vi_index iss_obytes iss_olen].
+  replace ((0 <? ia_asset a) || (0 <? ia_token a)) with true
+    by (symmetry; apply orb_true_iff; destruct NZ; [left | right]; apply N.ltb_lt; assumption).
+  cbn [negb]. change (length zero32b =? 0)%nat with false. cbn iota.
+  replace (bytes_eqb zero32b zero32b) with true by (symmetry; apply bytes_eqb_eq; reflexivity). cbn [negb].
+  unfold generate_entropy, from_contract_hash. cbn [ie_chash]. rewrite CE.
+  unfold generate_asset, generate_token. cbn [ie_iss iss_entropy]. split; assumption.
+Qed.
+
+(* ---------- the transaction's issuance fields versus the packet ---------- *)
+(* FULL STATEMENT: for every input without commitments, zero amounts included, UnsignedTx and
+   Extract both carry exactly the issuance the packet declares *)
+Theorem tx_issuance_fields_agree_with_packet i :
+  vi_vcommit i = None -> vi_kcommit i = None ->
+  unsigned_issuance i = expected_issuance i /\ extract_issuance i = expected_issuance i.
+Proof.
+  intros Hv Hk. unfold unsigned_issuance, extract_issuance, tx_issuance_of, expected_issuance, issuance_amount.
+  rewrite Hv, Hk.
+  assert (T : forall v, (if 0 <? v then iss_value_to_bytes v else [x00]) = (if v =? 0 then [x00] else iss_value_to_bytes v)).
+  { intro v. destruct (N.ltb_spec 0 v); destruct (N.eqb_spec v 0); try reflexivity; lia. }
+  rewrite !T. split; reflexivity.
+Qed.
+
+(* the signed and the extracted transaction never differ in an issuance *)
+Theorem unsigned_and_extract_agree i : unsigned_issuance i = extract_issuance i.
+Proof. reflexivity. Qed.
+
+Definition token_only_input : v2in :=
+  mk_v2in zero32b 0 0 0 None 1 None (Some zero32b) (Some zero32b) (Some false).
+Example token_only_issuance_reaches_the_transaction :
+  extract_issuance token_only_input = Some (mk_iss zero32b zero32b [x00] (x01 :: be_enc 8 1)) /\
+  unsigned_issuance token_only_input = extract_issuance token_only_input.
+Proof. split; vm_compute; reflexivity. Qed.
+
+(* a new issuance attached by AddInIssuance: zero nonce, contract hash as entropy, amounts *)
+Theorem v2_new_issuance_tx_fields input a :
+  vi_vcommit input = None -> vi_kcommit input = None ->
+  let want := Some (mk_iss zero32b (chash_of (ia_contract a)) (spec_amount (ia_asset a)) (spec_amount (ia_token a))) in
+  expected_issuance (v2_issued_input input a) = want /\
+  unsigned_issuance (v2_issued_input input a) = want /\
+  extract_issuance (v2_issued_input input a) = want.
+Proof.
+  intros Hv Hk. cbv zeta.
+  destruct (tx_issuance_fields_agree_with_packet (v2_issued_input input a)) as [U E]; try assumption.
+  rewrite U, E. repeat split.
+Qed.
+
+(* ---------- AddInReissuance ---------- *)
+Definition v2_reissued_input (input : v2in) (a : reiss2_args) (entropy : bytes) : v2in :=
+  mk_v2in (vi_txid input) (vi_index input) (vi_seq input) (r2_asset a) (vi_vcommit input) (vi_keys input)
+          (vi_kcommit input) (Some (r2_blinder a)) (Some entropy) (vi_blinded input).
+
+Lemma iss_hex32_inv o : iss_hex32 o = true -> exists b, o = Some b /\ length b = 32%nat.
+Proof. destruct o as [b|]; cbn [iss_hex32]; [|discriminate]. intro H. exists b. split; [reflexivity|]. apply Nat.eqb_eq. exact H. Qed.
+
+Theorem v2_reissuance_outputs_pay_derived_ids p idx a p' :
+  v2_add_in_reissuance p idx a = (true, p') ->
+  exists input eh asset token,
+    let k := Z.to_nat idx in
+    let bidx := Z.to_N idx mod 4294967296 in
+    let entropy := rev eh in
+    (0 <= idx)%Z /\ nth_error (v2_ins p) k = Some input /\ vi_entropy input = None /\
+    r2_entropy a = Some eh /\ length entropy = 32%nat /\
+    length (r2_blinder a) = 32%nat /\ r2_blinder a <> zero32b /\ 0 < r2_asset a /\ 0 < r2_token a /\
+    compute_asset entropy = Some asset /\
+    compute_token entropy 1 = Some token /\          (* a reissuance token is always the confidential one *)
+    v2_outs p' = v2_outs p ++ [v2_new_output asset (r2_asset a) (r2_aaddr a) 0 bidx;
+                               v2_new_output token (r2_token a) (r2_taddr a) 0 bidx] /\
+    v2_ins p' = iss_set_nth k (fun _ => v2_reissued_input input a entropy) (v2_ins p) /\
+    nth_error (v2_ins p') k = Some (v2_reissued_input input a entropy).
+Proof.
+  unfold v2_add_in_reissuance. intro H.
+  destruct (v2_index_ok p idx) as [input|] eqn:IX; [|discriminate H].
+  destruct (v2_reiss_validate a) eqn:V; cbn [negb] in H; [|discriminate H].
+  apply v2_index_ok_inv in IX as (Hpos & _ & Hnth & Hent).
+  unfold v2_reiss_validate in V. repeat (apply andb_true_iff in V as [V ?]).
+  match goal with X : iss_hex32 (r2_entropy a) = true |- _ => apply iss_hex32_inv in X as (eh & Heh & Leh) end.
+  assert (Le : length (rev eh) = 32%nat) by (rewrite rev_length; exact Leh).
+  rewrite Heh in H. cbn [iss_obytes] in H.
+  destruct (compute_asset_some (rev eh) Le) as (asset & CA & _).
+  destruct (compute_token_some (rev eh) true Le) as (token & CT & _). cbn [iss_flag_of] in CT.
+  unfold generate_asset, generate_token, from_entropy in H. cbn [ie_iss iss_entropy] in H. rewrite CA, CT in H.
+  cbv zeta in H.
+  destruct (v2_add_output p _) as [p1|] eqn:A1 in H; [|discriminate H].
+  apply v2_add_output_inv in A1 as (-> & M1).
+  destruct (v2_add_output _ _) as [p2|] eqn:A2 in H; [|discriminate H].
+  apply v2_add_output_inv in A2 as (-> & _).
+  inversion H; subst p'. clear H.
+  exists input, eh, asset, token. cbv zeta. unfold v2_set_in. cbn [v2_ins v2_outs].
+  assert (Hset : iss_set_nth (Z.to_nat idx)
+            (fun i : v2in => mk_v2in (vi_txid i) (vi_index i) (vi_seq i) (r2_asset a) (vi_vcommit i) (vi_keys i)
+                               (vi_kcommit i) (Some (r2_blinder a)) (Some (rev eh)) (vi_blinded i)) (v2_ins p)
+          = iss_set_nth (Z.to_nat idx) (fun _ => v2_reissued_input input a (rev eh)) (v2_ins p)).
+  { clear - Hnth. revert Hnth. generalize (Z.to_nat idx) as k. generalize (v2_ins p) as l.
+    induction l as [|x l IH]; intros [|k] Hn; cbn [iss_set_nth nth_error] in *; try reflexivity; try discriminate.
+    - inversion Hn; subst. reflexivity.
+    - rewrite (IH k Hn). reflexivity. }
+  rewrite Hset.
+  repeat match goal with X : negb _ = true |- _ => apply negb_true_iff in X end.
+  repeat split; try assumption.
+  - apply Nat.eqb_eq. assumption.
+  - intro E. match goal with X : bytes_eqb (r2_blinder a) zero32b = false |- _ => rewrite E in X; rewrite (proj2 (bytes_eqb_eq _ _) eq_refl) in X; discriminate X end.
+  - match goal with X : (r2_asset a =? 0) = false |- _ => apply N.eqb_neq in X; lia end.
+  - match goal with X : (r2_token a =? 0) = false |- _ => apply N.eqb_neq in X; lia end.
+  - rewrite <- app_assoc. reflexivity.
+  - rewrite nth_error_iss_set_nth, Hnth. reflexivity.
+Qed.
+
+(* blinding nonce and entropy of a reissuance reach the transaction unchanged; the token amount is absent *)
+Theorem v2_reissuance_tx_fields input a entropy :
+  vi_vcommit input = None -> vi_kcommit input = None -> vi_keys input = 0 -> 0 < r2_asset a ->
+  let i := v2_reissued_input input a entropy in
+  unsigned_issuance i = Some (mk_iss (r2_blinder a) entropy (spec_amount (r2_asset a)) [x00]) /\
+  extract_issuance i = unsigned_issuance i /\ expected_issuance i = unsigned_issuance i.
+Proof.
+  intros Hv Hk Hz Hpos. cbv zeta.
+  unfold unsigned_issuance, extract_issuance, tx_issuance_of, expected_issuance, v2_reissued_input, spec_amount, issuance_amount.
+  cbn [vi_entropy vi_vcommit vi_kcommit vi_value vi_keys vi_nonce iss_obytes iss_is_some]. rewrite Hv, Hk, Hz.
+  replace (0 <? r2_asset a) with true by (symmetry; apply N.ltb_lt; exact Hpos).
+  replace (r2_asset a =? 0) with false by (symmetry; apply N.eqb_neq; lia).
+  cbn [orb N.ltb N.eqb N.compare]. repeat split.
+Qed.
+
+(* and the getters of the reissued input derive the ids the outputs pay *)
+Theorem v2_reissuance_getters input a entropy asset :
+  length (r2_blinder a) = 32%nat -> r2_blinder a <> zero32b -> 0 < r2_asset a ->
+  compute_asset entropy = Some asset ->
+  get_issuance_asset_hash (v2_reissued_input input a entropy) = Some asset.
+Proof.
+  intros Lb NZ Hpos CA.
+  unfold get_issuance_asset_hash, vi_has_issuance, vi_issuance, vi_has_reissuance, v2_reissued_input.
+  cbn [vi_value vi_keys vi_nonce vi_entropy iss_obytes iss_olen].
+  replace (0 <? r2_asset a) with true by (symmetry; apply N.ltb_lt; exact Hpos). cbn [orb negb].
+  unfold iss_olen, iss_obytes. rewrite Lb. cbn [Nat.eqb].
+  destruct (bytes_eqb (r2_blinder a) zero32b) eqn:E; [apply bytes_eqb_eq in E; contradiction|]. cbn [negb].
+  unfold generate_asset, from_entropy. cbn [ie_iss iss_entropy]. exact CA.
+Qed.
+
+(* ====================================================================== *)
+(* PSET v0                                                                *)
+(* ====================================================================== *)
+Lemma find_empty_inv l : forall k idx i, find_empty l k = Some (idx, i) ->
+  (k <= idx)%nat /\ nth_error l (idx - k) = Some i /\ in_iss i = None.
+Proof.
+  induction l as [|x l IH]; intros k idx i H; cbn [find_empty] in H; [discriminate|].
+  destruct (in_iss x) eqn:E.
+  - apply IH in H as (L & N & I). repeat split; [lia | | exact I].
+    replace (idx - k)%nat with (S (idx - S k)) by lia. exact N.
+  - inversion H; subst. rewrite Nat.sub_diag. repeat split; [lia | exact E].
+Qed.
+
+Definition v0_issued_issuance (a : iss_args) : issuance :=
+  mk_iss zero32b (chash_of (ia_contract a)) (spec_amount (ia_asset a)) (spec_amount (ia_token a)).
+
+Theorem v0_issuance_outputs_pay_derived_ids p a p' :
+  v0_add_issuance p a = (true, p') ->
+  exists idx i entropy asset token,
+    (* the first input without an issuance is the one that issues *)
+    find_empty (t_ins (v0_tx p)) 0 = Some (idx, i) /\ nth_error (t_ins (v0_tx p)) idx = Some i /\
+    compute_entropy (in_hash i) (in_index i) (chash_of (ia_contract a)) = Some entropy /\
+    compute_asset entropy = Some asset /\
+    compute_token entropy (iss_flag_of (ad_conf (ia_aaddr a))) = Some token /\
+    t_outs (v0_tx p') = t_outs (v0_tx p) ++
+      (if 0 <? ia_asset a then [new_tx_output (explicit_asset asset) (spec_amount (ia_asset a)) (ad_script (ia_aaddr a))] else []) ++
+      (if 0 <? ia_token a then [new_tx_output (explicit_asset token) (spec_amount (ia_token a)) (ad_script (ia_taddr a))] else []) /\
+    (* the issuance fields of the transaction: zero nonce, iss_contract hash, amount encodings *)
+    t_ins (v0_tx p') = iss_set_nth idx (fun x => set_in_iss x (v0_issued_issuance a)) (t_ins (v0_tx p)) /\
+    nth_error (t_ins (v0_tx p')) idx = Some (set_in_iss i (v0_issued_issuance a)) /\
+    (* and the library derives the same entropy back from the finished input *)
+    option_map (fun ie => iss_entropy (ie_iss ie)) (new_from_input (in_hash i) (in_index i) (v0_issued_issuance a)) = Some entropy /\
+    (* the flag is the confidentiality both destinations share *)
+    (0 < ia_token a -> ad_present (ia_aaddr a) = true -> ad_conf (ia_aaddr a) = ad_conf (ia_taddr a)).
+Proof.
+  unfold v0_add_issuance. intro H.
+  destruct (v0_validate a) eqn:V; cbn [negb] in H; [|discriminate H].
+  destruct (t_ins (v0_tx p)) as [|i0 rest] eqn:Ins; [discriminate H|]. rewrite <- Ins in *. clear Ins i0 rest.
+  destruct (new_tx_issuance (ia_asset a) (ia_token a) (ia_precision a) (ia_contract a)) as [iss0|] eqn:NI; [|discriminate H].
+  destruct (find_empty (t_ins (v0_tx p)) 0) as [[idx i]|] eqn:FE; [|discriminate H].
+  destruct (generate_entropy iss0 (in_hash i) (in_index i)) as [iss|] eqn:GE; [|discriminate H].
+  pose proof (find_empty_inv _ _ _ _ FE) as (_ & Hnth & Hnone). rewrite Nat.sub_0_r in Hnth.
+  apply new_tx_issuance_inv in NI as (-> & Hprec & _).
+  apply generate_entropy_inv in GE as (entropy & CE & Le & ->).
+  cbn [ie_iss ie_chash ie_precision iss_nonce iss_amount iss_token iss_entropy] in *.
+  destruct (compute_asset_some entropy Le) as (asset & CA & _).
+  destruct (compute_token_some entropy (ad_conf (ia_aaddr a)) Le) as (token & CT & _).
+  unfold generate_asset, generate_token in H. cbn [ie_iss iss_entropy] in H. rewrite CA, CT in H.
+  cbv zeta in H.
+  destruct (ad_valid (ia_aaddr a)) eqn:VA; cbn [negb] in H; [|discriminate H].
+  exists idx, i, entropy, asset, token.
+  assert (Hback : option_map (fun ie => iss_entropy (ie_iss ie))
+                    (new_from_input (in_hash i) (in_index i) (v0_issued_issuance a)) = Some entropy).
+  { unfold new_from_input, v0_issued_issuance, is_reissuance. cbn [iss_nonce iss_entropy].
+    rewrite (proj2 (bytes_eqb_eq zero32b zero32b) eq_refl). cbn [negb].
+    unfold generate_entropy, from_contract_hash. cbn [ie_chash]. rewrite CE. reflexivity. }
+  assert (Hmatch : 0 < ia_token a -> ad_present (ia_aaddr a) = true -> ad_conf (ia_aaddr a) = ad_conf (ia_taddr a)).
+  { intros Htok Hpa. unfold v0_validate in V.
+    destruct (new_tx_issuance _ _ _ _); [|discriminate V].
+    apply andb_true_iff in V as [V V3]. apply andb_true_iff in V as [V1 V2].
+    replace (0 <? ia_token a) with true in V2 by (symmetry; apply N.ltb_lt; exact Htok).
+    apply andb_true_iff in V2 as [V2 _]. rewrite Hpa, V2 in V3. cbn [negb orb] in V3.
+    apply Bool.eqb_prop in V3. exact V3. }
+  assert (Hnth' : nth_error (iss_set_nth idx (fun x => set_in_iss x (v0_issued_issuance a)) (t_ins (v0_tx p))) idx
+                   = Some (set_in_iss i (v0_issued_issuance a))).
+  { rewrite nth_error_iss_set_nth, Hnth. reflexivity. }
+  destruct (0 <? ia_asset a) eqn:TA; destruct (0 <? ia_token a) eqn:TT;
+    try (destruct (ad_valid (ia_taddr a)) eqn:VT; cbn [negb] in H; [|discriminate H]);
+    inversion H; subst p'; unfold v0_add_output, v0_set_iss; cbn [v0_tx t_outs t_ins t_version t_flag t_locktime];
+    repeat split; try assumption; try reflexivity;
+    try (rewrite <- app_assoc; reflexivity); try (rewrite app_nil_r; reflexivity); try (intro X; lia).
+Qed.
+
+(* ---------- pset.Updater.AddReissuance ---------- *)
+Lemma iss_set_nth_last {A} (f : A -> A) (l : list A) x : iss_set_nth (length l) f (l ++ [x]) = l ++ [f x].
+Proof. induction l as [|y l IH]; cbn [length iss_set_nth app]; [reflexivity | rewrite IH; reflexivity]. Qed.
+
+Theorem v0_reissuance_outputs_pay_derived_ids p a p' :
+  v0_nin p = lenL (t_ins (v0_tx p)) ->
+  v0_add_reissuance p a = (true, p') ->
+  exists hh eh asset token,
+    let entropy := rev eh in
+    rva_hash a = Some hh /\ length hh = 32%nat /\ rva_entropy a = Some eh /\ length entropy = 32%nat /\
+    0 < rva_asset a /\ 0 < rva_token a /\ length (rva_blinder a) = 32%nat /\
+    compute_asset entropy = Some asset /\
+    compute_token entropy 1 = Some token /\
+    t_outs (v0_tx p') = t_outs (v0_tx p) ++
+      [new_tx_output (explicit_asset asset) (spec_amount (rva_asset a)) (ad_script (rva_aaddr a));
+       new_tx_output (explicit_asset token) (spec_amount (rva_token a)) (ad_script (rva_taddr a))] /\
+    (* the new input spends the token prevout and carries blinding nonce, entropy and amounts *)
+    t_ins (v0_tx p') = t_ins (v0_tx p) ++
+      [set_in_iss (new_tx_input (rev hh) (rva_index a))
+                  (mk_iss (rva_blinder a) entropy (spec_amount (rva_asset a)) [x00])].
+Proof.
+  intros Hinv. unfold v0_add_reissuance. intro H.
+  destruct (v0_reiss_validate a) eqn:V; cbn [negb] in H; [|discriminate H].
+  destruct (v0_nin p =? 0) eqn:Z0; [discriminate H|].
+  unfold v0_reiss_validate in V. repeat (apply andb_true_iff in V as [V ?]).
+  match goal with X : iss_hex32 (rva_entropy a) = true |- _ => apply iss_hex32_inv in X as (eh & Heh & Leh) end.
+  match goal with X : iss_hex32 (rva_hash a) = true |- _ => apply iss_hex32_inv in X as (hh & Hhh & Lhh) end.
+  assert (Le : length (rev eh) = 32%nat) by (rewrite rev_length; exact Leh).
+  rewrite Heh, Hhh in H. cbn [iss_obytes] in H.
+  destruct (compute_asset_some (rev eh) Le) as (asset & CA & _).
+  destruct (compute_token_some (rev eh) true Le) as (token & CT & _). cbn [iss_flag_of] in CT.
+  unfold generate_asset, generate_token, from_entropy in H. cbn [ie_iss iss_entropy] in H. rewrite CA, CT in H.
+  cbv zeta in H. inversion H; subst p'. clear H.
+  exists hh, eh, asset, token. cbv zeta.
+  assert (PA : 0 < rva_asset a) by (match goal with X : (0 <? rva_asset a) = true |- _ => apply N.ltb_lt in X; exact X end).
+  assert (PT : 0 < rva_token a) by (match goal with X : (0 <? rva_token a) = true |- _ => apply N.ltb_lt in X; exact X end).
+  assert (SA : spec_amount (rva_asset a) = iss_value_to_bytes (rva_asset a)).
+  { unfold spec_amount. replace (rva_asset a =? 0) with false by (symmetry; apply N.eqb_neq; lia). reflexivity. }
+  assert (ST : spec_amount (rva_token a) = iss_value_to_bytes (rva_token a)).
+  { unfold spec_amount. replace (rva_token a =? 0) with false by (symmetry; apply N.eqb_neq; lia). reflexivity. }
+  rewrite SA, ST.
+  unfold v0_set_iss, v0_add_output, v0_add_input. cbn [v0_tx v0_nin v0_nout t_ins t_outs t_version t_flag t_locktime].
+  replace (N.to_nat (v0_nin p + 1 - 1)) with (length (t_ins (v0_tx p))) by (rewrite Hinv; unfold lenL; lia).
+  rewrite iss_set_nth_last.
+  repeat split; try assumption; try reflexivity.
+  - apply Nat.eqb_eq. assumption.
+  - rewrite <- app_assoc. reflexivity.
+Qed.
+
+(* non-vacuity: a concrete call of each updater succeeds *)
+Definition ex_addr (conf : bool) : iss_addr := mk_iss_addr true true conf (repeat (b8 7) 22) (if conf then repeat (b8 2) 33 else []).
+Definition ex_args : iss_args := mk_iss_args 8 (Some tiero_contract) 1000 1 (ex_addr false) (ex_addr false) true.
+Definition ex_v2in : v2in := mk_v2in vec1_hash 68 0 0 None 0 None None None None.
+Definition ex_v2pkt : v2pkt := mk_v2pkt 1 0 true [ex_v2in] [].
+Example v2_add_in_issuance_succeeds : fst (v2_add_in_issuance ex_v2pkt 0 ex_args) = true.
+Proof. vm_compute. reflexivity. Qed.
+Definition ex_v0pkt : v0pkt := mk_v0pkt (mk_tx 2 0 0 [new_tx_input vec1_hash 68] []) 1 0.
+Example v0_add_issuance_succeeds : fst (v0_add_issuance ex_v0pkt ex_args) = true.
+Proof. vm_compute. reflexivity. Qed.
+Definition ex_reiss : v0_reiss_args :=
+  mk_v0_reiss_args true (Some vec1_hash) 3 (repeat (b8 9) 32) (Some vec2_hash) 5 1 (ex_addr true) (ex_addr true).
+Example v0_add_reissuance_succeeds : fst (v0_add_reissuance ex_v0pkt ex_reiss) = true.
+Proof. vm_compute. reflexivity. Qed.
+Definition ex_reiss2 : reiss2_args := mk_reiss2_args (repeat (b8 9) 32) (Some vec2_hash) 5 1 (ex_addr true) (ex_addr false).
+Example v2_add_in_reissuance_succeeds : fst (v2_add_in_reissuance ex_v2pkt 0 ex_reiss2) = true.
 Proof. vm_compute. reflexivity. Qed.
